@@ -418,6 +418,97 @@ pub fn run_acc_cases(args: &Args) -> Result<()> {
 }
 
 // ------------------------------------------------------------------------------------------------
+// C14: set_handler histories.  A handler is installed, the vector delivered, the handler REPLACED,
+// the vector delivered again (must enter the new address), a second vector installed and both
+// delivered - all through the real TRAPA #0 / request / try_interrupt / RTE path of one Cpu.
+// ------------------------------------------------------------------------------------------------
+pub fn run_handler_cases(args: &Args) -> Result<()> {
+    let outdir = args.req("out")?.to_string();
+    let seed = args.num("seed", 1);
+    let tier = args.get("tier").unwrap_or("quick").to_string();
+    std::fs::create_dir_all(&outdir)?;
+    let mut th = Thread::new(&format!("{}/thr_handler_00.ndjson", outdir), Bg::Tag)?;
+    let mut rng = Rng::new(seed ^ hash_str("C14handler"), 1);
+    let step = if tier == "thorough" { 1 } else { 4 };
+    let mut nh = 0u64;
+    for v in (1..=63u8).step_by(step) {
+        let v2 = 1 + (v as u32 * 7 + 11) as u8 % 63;
+        let v2 = if v2 == v { 1 + v % 63 } else { v2 };
+        let code = if v % 2 == 0 { 0xffc000u32 } else { 0x410000 } + ((rng.u32() & 0xff) << 1);
+        let mut a = Asm::new(code);
+        let install = |a: &mut Asm, blk: &str| {
+            a.mov_l_imm(0, 113);
+            a.mov_l_label(1, blk);
+            a.trapa(0);
+        };
+        install(&mut a, "blk1");
+        a.label("r1");
+        a.adds(1, 2);
+        install(&mut a, "blk2");
+        a.label("r2");
+        a.adds(1, 2);
+        install(&mut a, "blk3");
+        a.label("r3");
+        a.adds(1, 2);
+        a.label("done");
+        a.bcc8(0, "done");
+        a.label("hA");
+        a.adds(1, 3);
+        a.rte();
+        a.label("hB");
+        a.adds(2, 4);
+        a.rte();
+        for (blk, vec, h) in [("blk1", v, "hA"), ("blk2", v, "hB"), ("blk3", v2, "hA")] {
+            a.label(blk);
+            a.w(0);
+            a.w(vec as u16);
+            a.long_label(h);
+        }
+        let (org, bytes, labels) = a.finish();
+        let mut pokes = Vec::new();
+        poke_bytes(&mut pokes, org, &bytes);
+        bus_pokes(&mut pokes);
+        let mut regs = Regs::default();
+        for i in 2..7 {
+            regs.er[i] = rng.u32();
+        }
+        regs.er[7] = if v % 3 == 0 { 0x5fff00 } else { 0xffef00 };
+        regs.ccr = (rng.u8() & 0x7f) & !0x80; // I clear
+        regs.pc = org;
+        th.load(&regs, &pokes, None)?;
+        nh += 1;
+        let mut fired = [false; 3];
+        for _ in 0..60 {
+            let pc = th.m.get_regs().pc;
+            if pc == labels["done"] {
+                break;
+            }
+            if pc == labels["r1"] && !fired[0] {
+                fired[0] = true;
+                th.request(v)?;
+            } else if pc == labels["r2"] && !fired[1] {
+                fired[1] = true;
+                th.request(v)?;
+            } else if pc == labels["r3"] && !fired[2] {
+                fired[2] = true;
+                th.request(v2)?;
+                th.request(v)?;
+            }
+            if th.boundary()? != "ok" {
+                break;
+            }
+            if th.step()? != "ok" {
+                break;
+            }
+        }
+        th.end()?;
+    }
+    th.w.flush()?;
+    println!("{{\"driver\":\"handler-cases\",\"events\":{},\"histories\":{}}}", th.id, nh);
+    Ok(())
+}
+
+// ------------------------------------------------------------------------------------------------
 // C05: call / return nesting words -> programs.  A word is a sequence of call forms 1..5 and 0
 // (return); it is turned into a tree of subroutines realising exactly that dynamic sequence.
 // ------------------------------------------------------------------------------------------------
